@@ -21,7 +21,23 @@ COQ_FALLBACK = ("Model.C18", "spec_ok")
 COQ_IMPORTS = "From PAV Require Import Base.NumOps."
 SHARD = 250
 DEN = 16
-RULE = ("(h) histories (op hist): 1-2 BorderRelocator objects on one Mask2D object (sub-size maps equal, permuted or "
+RULE = ("(k) INPUT KINDS, drawn independently for every coordinate array of a call (data grid, mesh grid, border of the util "
+        "function, every pooled grid of a history): float64, float32, int64 / int32 ndarrays, Python lists of ints / floats "
+        "(lists, tuples), a strided view into a larger array of the caller, Fortran order; integer-typed arrays take "
+        "denominator 1 and meet float-typed partners with fractional values (own denominator per array) and the reverse "
+        "(integer mesh vertices on a float data grid); float32 data grids are scaled by the number of border pixels so that "
+        "np.mean of the float32 border is exact (else run as float64, counted), decisions on float32 squared distances "
+        "closer than 1e-5 are skipped; every kind must give the float64 result of the model (1e-9, untouched points "
+        "numerically identical).  Containers: Grid2DIrregular, its subclass Grid2DIrregularUniform, Grid2D, a Mesh2DDelaunay "
+        "object as mesh grid, derived (arithmetic) and native->slim structures, also integer-typed.  Sub-size maps: int, "
+        "int64 / int32 / float64 / float32 ndarray, int / float Array2D, Python lists of ints / floats; op radial: the map "
+        "is what OverSamplingUniform.from_radial_bins returns (float64 Array2D) and the relocator is "
+        "GridsDataset(mask, OverSamplingDataset(pixelization=...)).border_relocator, data grid = a distorted grid or the "
+        "dataset's own over_sampler_pixelization.over_sampled_grid object.  Masks include single-pixel, 1xN, Nx1 and 1x1; "
+        "empty mesh grids.  After every call: containers, the caller's arrays / lists they were built from, the rest of a "
+        "larger array around a view, the caller's Preloads() object handed to several calls and the shared DEFAULT "
+        "Preloads() objects of relocated_grid_from / mapper_grids_from are compared with their state before.  "
+        "(h) histories (op hist): 1-2 BorderRelocator objects on one Mask2D object (sub-size maps equal, permuted or "
         "different), 2-5 data grids and 2-3 mesh grids, 3-9 calls in random order through BorderRelocator, "
         "AbstractMesh.relocated_grid_from / relocated_mesh_grid_from, Delaunay/Voronoi/Rectangular mapper_grids_from with and "
         "without preloads.relocated_grid, reads of sub_border_slim / sub_border_grid in between, results kept and used as "
@@ -109,8 +125,8 @@ def view_intact(v):
     chk = big.copy(); chk[1::2, :2] = VIEW_FILL
     return bool((chk == VIEW_FILL).all())
 def rand_kind(rng, ints, lists=True, f4=True):
-    if ints: ks = ["i8", "i8", "i4", "i4", "f8"] + (["pylist", "pytuples"] if lists else [])
-    else: ks = ["f8"] * 6 + ["f8view", "f8F"] + (["f4", "f4"] if f4 else []) + (["pylist"] if lists else [])
+    if ints: ks = ["i8", "i8", "i4", "i4", "f8", "f8"] + (["pylist", "pytuples"] if lists else [])
+    else: ks = ["f8"] * 4 + ["f8view", "f8F"] + (["f4"] * 3 if f4 else []) + (["pylist"] if lists else [])
     return rng.choice(ks)
 def f32_exact(fr):
     """the Fraction is a float32 number"""
@@ -315,6 +331,23 @@ def rand_points(rng, border, k):
         else: pts.append([rng.randint(-64, 64), rng.randint(-64, 64)])
     return pts
 
+def rescale(rng, pts, den_from, den_to):
+    """the same positions (up to a jitter below the coarser lattice step) on the lattice of another denominator: lets an
+    integer-typed array (den 1) meet a float-typed one with fractional values (den 16) in one call"""
+    if den_to == den_from: return [list(p) for p in pts]
+    if den_to > den_from:
+        q = den_to // den_from; j = max(0, q // 2 - 1)
+        return [[p[0] * q + rng.randint(-j, j), p[1] * q + rng.randint(-j, j)] for p in pts]
+    return [[int(round(p[0] * den_to / den_from)), int(round(p[1] * den_to / den_from))] for p in pts]
+def mixed_kind(rng, ints, den, lists=True):
+    """(kind, den) of a second array of a call: mostly of the first one's family, sometimes of the other family
+    (integer-typed array with a float-typed partner holding fractional values, and the reverse)"""
+    if ints:
+        k = "f8" if rng.random() < 0.3 else rand_kind(rng, True, lists)
+        return (k, 16) if k == "f8" else (k, 1)
+    if rng.random() < 0.25: return rng.choice(["i8", "i4"] + (["pylist"] if lists else [])), 1
+    return rand_kind(rng, False, lists), den
+
 def fix_centroid(pts, idx):
     """moves the first of the points pts[i], i in idx, so that their centroid is a lattice point (in place)"""
     idx = list(idx); n = len(idx)
@@ -327,13 +360,15 @@ def rel_case(rng, op, m, sub, subs):
     view), their containers (Grid2DIrregular, its subclass Grid2DIrregularUniform, Grid2D, a Mesh2D object) are drawn
     independently; integer-typed coordinates take den = 1"""
     ints = rng.random() < 0.3
-    gk, vk = rand_kind(rng, ints), rand_kind(rng, ints)
+    den = 1 if ints else rng.choice([16, 64])
+    gk = rand_kind(rng, ints); vk, vden = mixed_kind(rng, ints, den)
     grid = distort(rng, unit_sub_grid16(m, subs))
     if gk == "f4":                # np.mean of the float32 border grid[sub_border_slim] is exact (checked at run time)
         nb = max(1, py_border_count(m)); grid = [[y * nb, x * nb] for (y, x) in grid]
-    mesh = rand_points(rng, grid, rng.randint(1, 6)) if rng.random() > 0.04 else []
+    mesh = rescale(rng, rand_points(rng, grid, rng.randint(1, 6)), den, vden) if rng.random() > 0.04 else []
+    if not mesh and vk in LIST_KINDS: vk = "i8" if vden == 1 else "f8"       # an empty selection is an empty (0, 2) ndarray
     cont = ["irregular", "irregular"] + ([] if gk in LIST_KINDS else ["irruniform"] + (["grid2d"] * 2 if all(s == 1 for s in subs) else []))
-    return {"op": op, "mask": m, "sub": sub, "grid": grid, "mesh": mesh, "den": 1 if ints else rng.choice([16, 64]),
+    return {"op": op, "mask": m, "sub": sub, "grid": grid, "mesh": mesh, "den": den, "vden": vden,
             "mesh_kind": rng.choice(["Delaunay", "Voronoi", "Rectangular"] if op == "mapper" else ["Delaunay", "Voronoi"]),
             "container": rng.choice(cont), "gkind": gk, "vkind": vk,
             "vcontainer": "irregular" if vk in LIST_KINDS or not mesh else rng.choice(["irregular", "irregular", "mesh2d", "irruniform"])}
@@ -359,11 +394,13 @@ def _gen_inputs(tier, rng):
     # ---- (a) util, random; 30% integer-typed (int64 / int32 ndarrays, den = 1), float32, strided views, Fortran order
     for _ in range(1000 if big else 150):
         ints = rng.random() < 0.3
-        gk, bk = rand_kind(rng, ints, lists=False), rand_kind(rng, ints, lists=False)
+        den = 1 if ints else rng.choice([16, 64, 256])
+        gk = rand_kind(rng, ints, lists=False); bk, bden = mixed_kind(rng, ints, den, lists=False)
         b = rand_border(rng)
+        g = rand_points(rng, b, rng.randint(1, 10))
+        b = rescale(rng, b, den, bden)
         if bk == "f4": fix_centroid(b, range(len(b)))       # np.mean of a float32 border is then exact
-        yield {"op": "util", "grid": rand_points(rng, b, rng.randint(1, 10)), "border": b,
-               "den": 1 if ints else rng.choice([16, 64, 256]), "gkind": gk, "bkind": bk}
+        yield {"op": "util", "grid": g, "border": b, "den": den, "bden": bden, "gkind": gk, "bkind": bk}
     # ---- (c) exhaustive masks
     lim = 11 if big else 9
     for h in range(1, lim + 1):
@@ -399,8 +436,8 @@ def _gen_inputs(tier, rng):
                "ps": rng.choice([[16, 16], [8, 8], [32, 32]]), "origin": [rng.randint(-4, 4) * 4, rng.randint(-4, 4) * 4],
                "sub_size_list": rng.choice([[4, 2, 1], [2, 1], [4, 1], [2, 4, 1], [1, 2], [2, 2, 1]]),
                "radial_frac": sorted(rng.sample([3, 5, 9, 13, 19, 27, 35], 3)),     # bin radii in 1/8 pixel
-               "seed": rng.randrange(1 << 30), "den": 1 if ints else rng.choice([16, 64]),
-               "gkind": rand_kind(rng, ints, f4=False), "vkind": rand_kind(rng, ints),
+               "seed": rng.randrange(1 << 30), "den": 1 if ints else 16, "vden": 16 if ints else rng.choice([1, 16, 16]),
+               "gkind": rand_kind(rng, ints, f4=False), "vkind": None,
                "mesh_kind": rng.choice(["Delaunay", "Voronoi"])}
     yield {"op": "mapper", "mask": None, "sub": None, "grid": [[1, 2], [300, 4]], "mesh": [[5, 6]], "mesh_kind": "Delaunay",
            "container": "irregular"}
@@ -455,8 +492,8 @@ def gen_hist(rng, big):
     meshes = []
     for _ in range(rng.randint(2, 3)):
         g = rng.choice(grids)["pts"]
-        kd = rand_kind(rng, ints)
-        meshes.append({"pts": rand_points(rng, g, rng.randint(1, 5)), "kind": kd,
+        kd, vd = mixed_kind(rng, ints, den)
+        meshes.append({"pts": rescale(rng, rand_points(rng, g, rng.randint(1, 5)), den, vd), "kind": kd, "den": vd,
                        "container": "irregular" if kd in LIST_KINDS else rng.choice(["irregular", "derived", "mesh2d", "irruniform"])})
     # steps; pool indexes of kept results are known in advance (len(grids) + number of keeps so far)
     pool_n = [g["n"] for g in grids]
@@ -585,10 +622,11 @@ def run_hist(aa, inp, skipped):
         if own is None: callers.append((vals, pool[-1][1] if aliases(obj, vals) else Fs(g["pts"], den)))
     meshes = []
     for v in inp["meshes"]:
-        vals = mk_vals(v["pts"], den, v.get("kind", "f8"))
+        vd = v.get("den", den)
+        vals = mk_vals(v["pts"], vd, v.get("kind", "f8"))
         obj, own = make_container(aa, v["container"], vals, mask)
-        meshes.append([obj, Fs(v["pts"], den), own])
-        if own is None: callers.append((vals, meshes[-1][1] if aliases(obj, vals) else Fs(v["pts"], den)))
+        meshes.append([obj, Fs(v["pts"], vd), own])
+        if own is None: callers.append((vals, meshes[-1][1] if aliases(obj, vals) else Fs(v["pts"], vd)))
     # ONE Preloads() object of the caller (nothing preloaded) handed to several calls
     # (run_time_dict is left at None: the repo's default config has no general/profiling section, profile_func needs one)
     shared_pre = Preloads(); shared_fp = {k: id(x) for k, x in vars(shared_pre).items()}
@@ -629,7 +667,7 @@ def run_hist(aa, inp, skipped):
             else: o[j] = [float(newp[0]), float(newp[1])]
             c[j] = newp; audit(tag); continue
         if do == "editmesh":
-            o, c, own = meshes[st["v"]]; j = st["j"] % len(c); newp = F(st["p"], den)
+            o, c, own = meshes[st["v"]]; j = st["j"] % len(c); newp = F(st["p"], inp["meshes"][st["v"]].get("den", den))
             if own is not None: own[j] = [float(newp[0]), float(newp[1])]
             else: o[j] = [float(newp[0]), float(newp[1])]
             c[j] = newp; audit(tag); continue
@@ -768,15 +806,15 @@ def run_case(inp):
         STATS["skipped_band"] += 1
         return dict(coq=None, out=None, py_ok=None, nontrivial=False, kind="skipped_band")
     if op == "util":
-        gk, bk = inp.get("gkind", "f8"), inp.get("bkind", "f8")
+        gk, bk = inp.get("gkind", "f8"), inp.get("bkind", "f8"); bden = inp.get("bden", den)
         f4 = "f4" in (gk, bk)
-        if in_band(inp["grid"], inp["border"], den, d2tol=1e-5 if f4 else None): return skipped()
-        if bk == "f4" and not centroid_f32_exact(Fs(inp["border"], den)): bk = "f8"; STATS["f4_downgraded"] += 1
-        g = mk_vals(inp["grid"], den, gk); g0 = g.copy(); b = mk_vals(inp["border"], den, bk); b0 = b.copy()
+        if in_band_F(Fs(inp["grid"], den), Fs(inp["border"], bden), d2tol=1e-5 if f4 else None): return skipped()
+        if bk == "f4" and not centroid_f32_exact(Fs(inp["border"], bden)): bk = "f8"; STATS["f4_downgraded"] += 1
+        g = mk_vals(inp["grid"], den, gk); g0 = g.copy(); b = mk_vals(inp["border"], bden, bk); b0 = b.copy()
         out = call_res(lambda: pts_out(grid_2d_util.relocated_grid_via_jit_from(grid=g, border_grid=b)))
         # the caller's arrays are not written (nor, for a strided view, the rest of the caller's larger array)
         R["py_ok"] = bool((g == g0).all() and (b == b0).all() and g.dtype == g0.dtype and view_intact(g) and view_intact(b))
-        R.update(coq=f"(KUtil {cpts16(inp['grid'], den)} {cpts16(inp['border'], den)} {cres_pts(out)})", out=out,
+        R.update(coq=f"(KUtil {cpts16(inp['grid'], den)} {cpts16(inp['border'], bden)} {cres_pts(out)})", out=out,
                  nontrivial=bool(inp["grid"]) and bool(inp["border"]), kind="util" + kind_tag(gk, bk))
         return R
     if op in ("reloc", "mesh", "mapper", "radial"):
@@ -792,7 +830,7 @@ def run_case(inp):
             R.update(coq=f"(KMapper None [] {cpts16(grid16, den)} {cpts16(mesh16, den)} "
                          f"{cres(out, lambda v: ctup([cptsf(v[0]), cptsf(v[1])]))})", out=out)
             return R
-        gk, vk = inp.get("gkind", "f8"), inp.get("vkind", "f8")
+        gk, vk = inp.get("gkind", "f8"), inp.get("vkind", "f8"); vden = inp.get("vden", den)
         gcont, vcont = inp.get("container", "irregular"), inp.get("vcontainer", "irregular")
         own_grid = None
         if op == "radial":
@@ -823,20 +861,21 @@ def run_case(inp):
                 own_grid = gd.over_sampler_pixelization.over_sampled_grid
                 op = "mesh"
             grid16 = distort(rng2, unit_sub_grid16(inp["mask"], subs))
-            mesh16 = rand_points(rng2, grid16, rng2.randint(1, 6))
+            mesh16 = rescale(rng2, rand_points(rng2, grid16, rng2.randint(1, 6)), den, vden)
+            if vk is None: vk = rng2.choice(["i8", "i4", "pylist"] if vden == 1 else ["f8", "f8", "f4", "f8view"])
         else:
             mask, rel = make_relocator(aa, inp)
             subs = sub_list(inp["sub"], npix(inp["mask"]))
         sbs = [int(v) for v in rel.sub_border_slim]
         G = Fs(grid16, den) if own_grid is None else fr_pts(np.array(own_grid))
-        V = Fs(mesh16, den)
+        V = Fs(mesh16, vden)
         B = [G[k] for k in sbs if 0 <= k < len(G)]
         if gk == "f4" and not centroid_f32_exact(B): gk = "f8"; STATS["f4_downgraded"] += 1
         d2tol = 1e-5 if "f4" in (gk, vk) else None
         if (op != "mesh" and in_band_F(G, B, d2tol=d2tol)) or (op != "reloc" and in_band_F(V, B, d2tol=d2tol)): return skipped()
         if own_grid is not None: grid, gvals, gk = own_grid, None, "f8"
         else: gvals = mk_vals(grid16, den, gk); grid = make_container(aa, gcont, gvals, mask)[0]
-        vvals = mk_vals(mesh16, den, vk); mesh = make_container(aa, vcont, vvals, mask)[0]
+        vvals = mk_vals(mesh16, vden, vk); mesh = make_container(aa, vcont, vvals, mask)[0]
         R["kind"] = R["kind"] + kind_tag(gk, vk if op != "reloc" else "f8")
         head = f"{cmask(inp['mask'])} {cnats(subs)}"
         if op == "reloc":
